@@ -843,7 +843,21 @@ func runMgrCase(in input) (*caseOut, error) {
 			for _, o := range ops {
 				facts.apply(o)
 			}
+			continue
 		}
+		// A transaction of the history that is refused part-way (e.g. a
+		// duplicate import after a passphrase change) is rolled back by
+		// walletdb.Update.  The state of a case is the COMMITTED history,
+		// so the manager is restarted from the file here: what an early
+		// in-memory update leaves behind after a rollback is what the
+		// probes below report (known findings), it must not leak into the
+		// state the probes start from.
+		main.mgr.Close()
+		main.mgr = nil
+		if err := main.open(facts.pub, facts.priv); err != nil {
+			return nil, fmt.Errorf("harness: restart after refused history transaction: %w", err)
+		}
+		mainRes.cache = map[path4]btcutil.Address{}
 	}
 	snapshot := filepath.Join(dir, "snapshot.db")
 	f, err := os.Create(snapshot)
